@@ -53,6 +53,21 @@ BindSel == /\ Scope = "bindsel" /\ phase = 0
            /\ \E sl \in VocabFull \cup {"none"}, tg \in VocabFull :
                 ts' = <<"def", "IDx", "{", "}", "bind", "IDx">> \o (IF sl = "none" THEN <<>> ELSE <<":", sl>>) \o <<"->", tg>>
            /\ phase' = 1 /\ UNCHANGED <<must, lines>>
+\* ---- every statement form at every nesting depth ("nest"): a statement of each kind (declarations, print / eval, bare expressions and
+\* assignments, block definitions with and without a name, bind in all its forms) at toplevel and inside one, two and three
+\* enclosing blocks, after a prelude that declares x and completes a block of type 'all'; between two other statements
+NestForms == { <<"var", "IDfirst">>, <<"var", "IDfirst", "=", "IDx", "+", "INT1">>, <<"print", "IDx">>, <<"eval", "IDx", "=", "INT2">>,
+               <<"IDx">>, <<"IDx", "=", "INT1">>, <<"IDlast", "=", "STR">>, <<"INT1", "+", "INT2">>, <<"(", "IDx", ")">>, <<"not", "IDx">>,
+               <<"def", "IDslice", "{", "}">>, <<"def", "IDslice", "STR", "{", "IDlast", "=", "INT1", "}">>,
+               <<"bind", "IDall", "->", "IDstruct">>, <<"bind", "IDall", ":", "INT1", "->", "IDstruct">>, <<"bind", "IDall", ":", "IDfirst", "->", "IDslice">>,
+               <<"bind", "IDall", ":", "IDall", "->", "IDslice">>, <<"bind", "IDall", ":", "IDall", "->", "IDstruct">>, <<"bind", "IDall", "->", "IDx">>,
+               <<"bind", "IDall", ":", "IDlast", "->", "IDstruct", ";">>, <<"}">>, <<"{", "}">> }
+RECURSIVE WrapDef(_, _)
+WrapDef(b, d) == IF d = 0 THEN b ELSE <<"def", "IDx", "{">> \o WrapDef(b, d - 1) \o <<"}">>
+PickNest == /\ Scope = "nest" /\ phase = 0
+            /\ \E f \in NestForms, d \in 0..3, pre \in {<<>>, <<"print", "INT1">>}, post \in {<<>>, <<"eval", "INT2">>} :
+                 ts' = <<"var", "IDx", "def", "IDall", "{", "}">> \o WrapDef(pre \o f \o post, d)
+            /\ phase' = 1 /\ UNCHANGED <<must, lines>>
 \* ---- comments are layout: a '#' comment up to CR, LF or the end of input may follow any token ("comments")
 CmtSeps == << <<32>>, <<35, 99, 10>>, <<35, 99, 13>>, <<32, 35, 32, 41, 32, 34, 13, 10>>, <<35, 13>>, <<35, 10>> >>
 GrowCmt == /\ Scope = "comments" /\ Len(ts) < MaxLen /\ \E k \in Vocab, c \in 1..Len(CmtSeps) : ts' = Append(ts, k) /\ must' = must \cup {<<Len(ts) + 1, c>>}
@@ -84,7 +99,7 @@ MustLines(ls, i, acc) ==
   ELSE IF ls[i] \in TailStop THEN MustLines(ls, i + 1, [acc EXCEPT ![i + 1] = @ + 1])
   ELSE MustLines(ls, i + 1, acc)
 Zeros(n) == [i \in 1..n |-> 0]
-Next == GrowAll \/ GrowViable \/ Mutate \/ RecGrow \/ PickAsg \/ BindSel \/ GrowCmt
+Next == GrowAll \/ GrowViable \/ Mutate \/ RecGrow \/ PickAsg \/ BindSel \/ GrowCmt \/ PickNest
 Spec == Init /\ [][Next]_vars
 
 RECURSIVE SrcLines(_)
@@ -93,7 +108,7 @@ RECURSIVE Flat(_)
 Flat(ls) == IF ls = <<>> THEN <<>> ELSE Head(ls) \o Flat(Tail(ls))
 RECURSIVE SetToSeq(_)
 SetToSeq(S) == IF S = {} THEN <<>> ELSE LET m == CHOOSE x \in S : \A y \in S : x <= y IN <<m>> \o SetToSeq(S \ {m})
-Emit == (Scope # "recover" /\ (Scope \notin {"assign", "bindsel"} \/ phase = 1)) =>
+Emit == (Scope # "recover" /\ (Scope \notin {"assign", "bindsel", "nest"} \/ phase = 1)) =>
         PrintT(<<"CASE", ToJson([fam |-> "gram", src |-> IF Scope = "comments" THEN SrcCmt(ts, 1) ELSE Src(ts), acc |-> Accepts(ts), der |-> Derives(ts), n |-> Len(ts),
                                    mut |-> (phase = 1), must |-> <<>>])>>)
 EmitR == (Scope = "recover" /\ lines # <<>>) =>
